@@ -72,7 +72,11 @@ CHECKS['C20'] = (OTHER, 'bounded call-history symbolic execution of the real Pan
     'Bounded verification over call histories (14 operations x 14 x 7 redefinitions on flat and cylindrical panels, thorough: all pairs and the w-only model): results depend on the definition only, each quantity can be requested first on a fresh object, caller arrays are not modified.',
     'History length <= 2 calls + 1 redefinition; eigen-solvers stubbed (the matrices passed are observed); OpenMP races and complete shells outside.',
     'DESIGN.md section 4 C20')
+_SHELL = ('complete-shell (ConeCyl) kernels are not encoded: the 47 conecyl extension modules are built around cimport-ed integrand callbacks, a function-pointer integrator, '
+          'C structs and trigonometric bases, which the de-Cythoniser/oracle pair built here (polynomial Bardell bases, no cimport/struct/callback support, no exact trigonometric integrator) '
+          'cannot execute; nothing about this property is decided, so nothing is claimed (DESIGN.md section 9.2)')
 NA = {
+    'C16': _SHELL, 'C17': _SHELL, 'C18': _SHELL,
     'C15': 'eigenvalue monotonicity/convergence for pencils of size 48..768 is not a bounded first-order query any installed solver can decide; the algebraic ingredients (exact Hessians, exact tables, nestedness) are decided under C02-C04 and C10 (DESIGN.md section 5)',
 }
 man = {
